@@ -3,7 +3,7 @@
    filter (okA A) (enum i), and every entry has probability 1 / countsA i. *)
 From Coq Require Import List ZArith QArith Bool Lia Permutation.
 From DD Require Import Model.Circuit Model.Query Model.Enumerate
-     Proofs.PassLemmas Proofs.Enum Proofs.Semantics Proofs.CountsA
+     Proofs.PassLemmas Proofs.Enum Proofs.Semantics Proofs.CountsA Proofs.Live Proofs.LiveCounts
      Proofs.C07Defs Proofs.C07Valid Proofs.C07Urs Proofs.C07IdealDefs.
 Import ListNotations.
 Open Scope Z_scope.
@@ -199,10 +199,13 @@ Qed.
 (* ---------- the induction ---------- *)
 
 Lemma joint1_uniform : forall i, (i < length C)%nat ->
-  forall f, (i < f)%nat -> cnt i <> 0 -> node_uniform f i.
+  forall f, (i < f)%nat -> Reach C i -> cnt i <> 0 -> node_uniform f i.
 Proof.
-  apply (idx_induction C (fun i => forall f, (i < f)%nat -> cnt i <> 0 -> node_uniform f i) Hok).
-  intros i Hi IH f Hif Hcnt. destruct f as [|f]; [lia|].
+  apply (idx_induction C (fun i => forall f, (i < f)%nat -> Reach C i -> cnt i <> 0 -> node_uniform f i) Hok).
+  intros i Hi IH f Hif HR Hcnt. destruct f as [|f]; [lia|].
+  assert (HRc : forall c, In c (children (nth i C FalseN)) -> Reach C c).
+  { intros c Hc. apply (reach_child C i c HR Hi); [|exact Hc].
+    exact (count_of_countsA_nonzero C Hok A i Hi Hcnt). }
   pose proof (idx_ok_nth C i FalseN Hok Hi) as Hch.
   pose proof (countsA_unfold A C i 0 Hok Hi) as Hcu.
   pose proof (enums_unfold C Hok i Hi []) as Heu.
@@ -218,7 +221,7 @@ Proof.
     + intros c Hc. specialize (Hch c Hc).
       assert (Hcc : cnt c <> 0).
       { rewrite Hcu in Hcnt. apply (zprod_nonzero _ Hcnt). apply in_map_iff. now exists c. }
-      split; [exact Hcc|]. apply IH; [exact Hc|lia|exact Hcc].
+      split; [exact Hcc|]. apply IH; [exact Hc|lia|exact (HRc c Hc)|exact Hcc].
     + cbn. lia.
     + apply PermP_refl.
     + constructor; [|constructor]. unfold e_pr. cbn. reflexivity.
@@ -226,18 +229,18 @@ Proof.
       rewrite Heu. rewrite filter_prod; [|reflexivity|apply okA_app].
       rewrite <- map_rev, map_map, map_rev in *. exact HP.
   - (* Or *)
-    assert (Hti : nth i ts 0 = cnt i) by (apply Hts; [exact Hi|congruence]).
+    assert (Hti : nth i ts 0 = cnt i) by (apply Hts; [exact Hi|congruence|exact HR]).
     split.
     + rewrite outs_or_branches, Heu, filter_concat, map_map. apply PermP_concat.
       apply Forall2_map_same. intros c Hc. specialize (Hch c Hc).
-      assert (Htc : nth c ts 0 = cnt c) by (apply Hts; [lia|now apply (Hnt i cs c)]).
+      assert (Htc : nth c ts 0 = cnt c) by (apply Hts; [lia|now apply (Hnt i cs c)|exact (HRc c Hc)]).
       destruct (nth c ts 0 =? 0) eqn:Et.
       * apply Z.eqb_eq in Et. rewrite dead_empty; [apply PermP_refl|lia|congruence].
-      * apply Z.eqb_neq in Et. apply IH; [exact Hc|lia|congruence].
+      * apply Z.eqb_neq in Et. apply IH; [exact Hc|lia|exact (HRc c Hc)|congruence].
     + apply all_pr_or_branches. intros c Hc Et. specialize (Hch c Hc).
-      assert (Htc : nth c ts 0 = cnt c) by (apply Hts; [lia|now apply (Hnt i cs c)]).
+      assert (Htc : nth c ts 0 = cnt c) by (apply Hts; [lia|now apply (Hnt i cs c)|exact (HRc c Hc)]).
       assert (Hcc : cnt c <> 0) by congruence.
-      destruct (IH c Hc f ltac:(lia) Hcc) as [_ Hprc].
+      destruct (IH c Hc f ltac:(lia) (HRc c Hc) Hcc) as [_ Hprc].
       eapply Forall_impl; [|exact Hprc]. intros b Hb. cbn beta in Hb.
       rewrite Hb, Hti, Htc. apply q_or; assumption.
   - (* True *)
@@ -309,7 +312,7 @@ Proof.
   pose proof (wf_idx C n HWF) as Hok. pose proof (root_lt C (wf_nonempty C n HWF)) as Hrl.
   pose proof (countsA_MCA C n A HWF HA) as Hc.
   assert (Hnz : nth (root C) (countsA A C) 0 <> 0) by (rewrite Hc; lia).
-  destruct (joint1_uniform d A ts Hok Hts Hnt (root C) Hrl (length C) Hrl Hnz) as [[L [HF HP]] Hpr].
+  destruct (joint1_uniform d A ts Hok Hts Hnt (root C) Hrl (length C) Hrl (reach_root C) Hnz) as [[L [HF HP]] Hpr].
   unfold law1. change (rootn d) with (root C). change (length (circ d)) with (length C).
   split.
   - rewrite map_map. cbn [fst].
